@@ -216,7 +216,8 @@ def r06_5(chk):
     good = first is not None and norm(first.value) == "record[:eol].strip().decode('utf8')" and any(isinstance(c, ast.Call) and norm(c.func) == "label_to_name" for c in walk_no_nested(fn))
     chk.decide(good, "R06.5", key(m, "iter_fasta_records[bytes]", "label = record[:eol].strip()"), m.loc(first or fn), "label is the first line of the record, stripped and decoded, then label_to_name", "the bytes parser derives the label differently from the line-based parsers")
     eol = [st for st in walk_no_nested(fn) if isinstance(st, ast.Assign) and norm(st.targets[0]) == "eol"]
-    chk.decide(bool(eol) and norm(eol[0].value) in ("record.find(b'\\n')",), "R06.5", key(m, "iter_fasta_records[bytes]", "label ends at the first newline"), m.loc(eol[0] if eol else fn), "eol = record.find(b'\\n')", "label end is not the first newline of the record")
+    part = [st for st in walk_no_nested(fn) if isinstance(st, ast.Assign) and isinstance(st.value, ast.Call) and norm(st.value.func) == "record.partition" and [getattr(a, "value", None) for a in st.value.args] == [b"\n"]]
+    chk.decide((bool(eol) and norm(eol[0].value) in ("record.find(b'\\n')",)) or bool(part), "R06.5", key(m, "iter_fasta_records[bytes]", "label ends at the first newline"), m.loc(eol[0] if eol else part[0] if part else fn), "label ends at the first newline (find / partition)", "label end is not the first newline of the record")
     mc = m.cls("minimal_converter")
     call = mc.methods.get("__call__")
     dels = [kw.value.value for c in ast.walk(call) if isinstance(c, ast.Call) for kw in c.keywords if kw.arg == "delete" and isinstance(kw.value, ast.Constant)] if call else []
@@ -256,9 +257,33 @@ def r06_6(chk):
     chk.floor("R06.6", 4, "four obligations")
 
 
+def r06_7(chk):
+    chk.rule("R06.7", "writers that wrap a sequence into fixed-width blocks cover the whole sequence: the loop bound of the wrapping helper derives from the length of the string it was given (GDE/PAML helper), FASTA wraps str(seq) itself; a bound taken from shared state (the first sequence's length) truncates longer sequences of a ragged collection")
+    from ..defuse import derived_names, expr_derives
+
+    m = chk.repo.module("format/util.py")
+    fn = m.func("_AlignmentFormatter.slice_string_in_blocks")
+    sp = [p for p in params_of(fn) if p != "self"][0]
+    d = derived_names(fn, {sp})
+    ranges = [c for c in walk_no_nested(fn) if isinstance(c, ast.Call) and call_name(c) == "range"]
+    if not ranges:
+        # another idiom (textwrap / comprehension over the string) -- accept only what mentions the string itself
+        wraps = [c for c in walk_no_nested(fn) if isinstance(c, ast.Call) and (call_name(c) or "").endswith("wrap") and c.args and expr_derives(c.args[0], d)]
+        chk.decide(bool(wraps), "R06.7", key(m, "_AlignmentFormatter.slice_string_in_blocks", "covers the whole string"), m.loc(fn), "wraps the given string", "no loop over the given string found")
+    for c in ranges:
+        stop = c.args[1] if len(c.args) >= 2 else c.args[0]
+        chk.decide(expr_derives(stop, d), "R06.7", key(m, "_AlignmentFormatter.slice_string_in_blocks", f"block loop bound {norm(stop)}"), m.loc(c), f"bound `{norm(stop)}` derives from len({sp})", f"the block loop runs to `{norm(stop)}`, which does not depend on the string being wrapped: a sequence longer than that is silently truncated in GDE/PAML output")
+    f2 = chk.repo.module("format/fasta.py").func("seqs_to_fasta")
+    wraps = [c for c in walk_no_nested(f2) if isinstance(c, ast.Call) and norm(c.func) == "textwrap.wrap"]
+    good = bool(wraps) and "seqs[name]" in norm(wraps[0].args[0])
+    chk.decide(good, "R06.7", key("format/fasta.py", "seqs_to_fasta", "wraps the sequence itself"), chk.repo.module("format/fasta.py").loc(wraps[0] if wraps else f2), "textwrap.wrap(str(seqs[name]), block_size)", "the FASTA writer no longer wraps the sequence it is writing")
+    chk.floor("R06.7", 2, "shared block helper + FASTA writer")
+
+
 def run(chk):
     r06_1(chk)
     r06_6(chk)
+    r06_7(chk)
     r06_2(chk)
     r06_3(chk)
     r06_4(chk)
